@@ -55,7 +55,7 @@ class SimOutcome:
 
 
 def run_sim(fn, *, policy, workers=1, trace_lines=True, rng_injector=None,
-            faults=None, max_steps=3_000_000, rng_log=True, extra_prefixes=()):
+            faults=None, max_steps=3_000_000, rng_log=True, extra_prefixes=(), watcher=None):
     """Run fn() under the simulator.  ``policy`` is a spec dict (see
     sched.make_policy).  Exceptions raised by the workload are captured in
     outcome.error; HarnessError propagates."""
@@ -99,8 +99,19 @@ def run_sim(fn, *, policy, workers=1, trace_lines=True, rng_injector=None,
         _ex.STATS = stats
         rng.install()
         flt.install()
+        target = fn
+        if watcher is not None:
+            # an observer thread: evaluates watcher() between the steps of the other threads for as long as
+            # the workload runs (invariants checked while the run proceeds); it is torn down with the simulation
+            def target():
+                def observe():
+                    while True:
+                        watcher()
+                        sch.yield_away("watch")
+                sch.spawn(observe, "watcher")
+                return fn()
         try:
-            out.value = sch.run(fn)
+            out.value = sch.run(target)
         except _sched.HarnessError:
             raise
         except _sched.SimAbort:
